@@ -44,7 +44,8 @@ func MultiFilePackage(pkg, goName string) (types, service, unrelated *spec.File)
 	types.Messages = []*spec.Message{
 		{Name: "Bar", Fields: []*spec.Field{spec.F("symbol", 1, spec.String), spec.F("price", 2, spec.Double), spec.F("volume", 3, spec.Int64).With(func(a *spec.Ann) { a.Int64Enc = 2 })}},
 		{Name: "BarList", Fields: []*spec.Field{spec.FM("bars", 1, "."+pkg+".Bar").Rep().With(func(a *spec.Ann) { a.Unwrap = true })}},
-		{Name: "Tagged", Fields: []*spec.Field{spec.FE("level", 1, "."+pkg+".Level"), spec.F("raw", 2, spec.Bytes).With(func(a *spec.Ann) { a.BytesEnc = 5 }), spec.FM("seen_at", 3, spec.Timestamp).With(func(a *spec.Ann) { a.TSFormat = 3 })}},
+		{Name: "Tagged", Fields: []*spec.Field{spec.FE("level", 1, "."+pkg+".Level"), spec.F("raw", 2, spec.Bytes).With(func(a *spec.Ann) { a.BytesEnc = 5 })}},
+		{Name: "Stamped", Fields: []*spec.Field{spec.FM("seen_at", 1, spec.Timestamp).With(func(a *spec.Ann) { a.TSFormat = 3 })}},
 		{Name: "Outer", Nested: []*spec.Message{{Name: "Inner", Fields: []*spec.Field{spec.F("v", 1, spec.Int32)}, Nested: []*spec.Message{{Name: "Deep", Fields: []*spec.Field{spec.F("w", 1, spec.String)}}}}},
 			Fields: []*spec.Field{spec.FM("inner", 1, "."+pkg+".Outer.Inner"), spec.FM("deep", 2, "."+pkg+".Outer.Inner.Deep")}},
 	}
